@@ -209,6 +209,20 @@ CHECKS['C03'] = ('4/C03',
     'object internals are NOT modelled; a lexer state after t_error raised is not modelled.',
     'Lean 4 proof (ownership/frame invariant by induction on schedules) + scheduler-controlled correspondence of token streams')
 
+CHECKS['C02'] = ('4/C02',
+    'Lean 4 theorems over a session state machine that WRITES the hidden mutable state the code really has (prototype and cloned '
+    'lexers, LR stacks, errorok, the process-global lexer, the traceback chains of the nine shared error singletons, stderr): the '
+    'outcome of parse depends on the parser\'s bindings only - equal bindings give equal outcomes whatever the hidden state, any '
+    'history that leaves the bindings unchanged leaves every later outcome unchanged, a fresh parser with the same registrations '
+    'evaluates identically, debug is irrelevant to the record, parse never changes bindings, traceback chains never grow and the '
+    'retained hidden state is bounded independently of the number of evaluations (the pre-repair leaky variant is shown to grow). '
+    'Host-value immutability and memory are judged on the real code: long seeded histories probed against fresh parsers after every '
+    'block, debug on/off triples, deep before/after comparison of list values for 152 builtins x arities x argument shapes and all '
+    'operators, and gc/traceback/tracemalloc growth slopes over 50..800 repetitions.',
+    'Trusted: Lean kernel; correspondence harness; values are immutable in the model (the immutability clause is carried by the '
+    'oracle); CPython heap behaviour is measured, not modelled; NOW/TODAY/RAND excluded (clock/random source).',
+    'Lean 4 proof (non-interference of hidden state, invariants over histories) + history correspondence + runtime memory/immutability oracle')
+
 NOT_APPLICABLE = {}
 
 
